@@ -28,6 +28,35 @@ MODEL_LIMIT_RE = _re.compile(
     r"SymInt|SymFloat|SymVal|SymBool|RangeValues|DemonicSet|DemonicFrozenSet|TrackedDict|PrefixSum)\b")
 
 
+_MSG_LINES = {}
+
+
+def _only_for_a_message():
+    """True iff the proxy is being converted to a number inside a `raise` statement or a `warnings.warn(...)` call of the
+    code under proof (i.e. only to be formatted into a message): the text of a message is not an observable of any
+    contract here, so a placeholder number is sound.  Anywhere else the conversion would concretise a symbol."""
+    import ast
+    import sys as _sys
+    f = _sys._getframe(2)
+    while f is not None and ("/vp/" in f.f_code.co_filename):
+        f = f.f_back
+    if f is None:
+        return False
+    fn, ln = f.f_code.co_filename, f.f_lineno
+    if fn not in _MSG_LINES:
+        s = set()
+        try:
+            with open(fn) as fh:
+                tree = ast.parse(fh.read())
+            for n in ast.walk(tree):
+                if isinstance(n, ast.Raise) or (isinstance(n, ast.Call) and isinstance(n.func, ast.Attribute) and n.func.attr == "warn"):
+                    s.update(range(n.lineno, (n.end_lineno or n.lineno) + 1))
+        except (OSError, SyntaxError):
+            pass
+        _MSG_LINES[fn] = s
+    return ln in _MSG_LINES[fn]
+
+
 class EngineUnsupported(Exception):
     """The engine met an operation it cannot model soundly (would concretise a symbol)."""
 
@@ -386,10 +415,19 @@ class SymInt:
         raise EngineUnsupported("symbolic int is unhashable (would concretise)")
 
     def __index__(s):
+        if _only_for_a_message():
+            return 0
         raise EngineUnsupported("symbolic int used as concrete index")
 
     def __int__(s):
+        if _only_for_a_message():
+            return 0
         raise EngineUnsupported("int() of symbolic int")
+
+    def __float__(s):
+        if _only_for_a_message():
+            return 0.0
+        raise EngineUnsupported("float() of symbolic int")
 
     def __repr__(s):
         return f"SymInt({s.e})"
@@ -486,6 +524,8 @@ class SymVal:
         raise EngineUnsupported("symbolic value is unhashable")
 
     def __float__(s):
+        if _only_for_a_message():
+            return 0.0
         raise EngineUnsupported("float() of a symbolic value")
 
     def __repr__(s):
